@@ -180,6 +180,17 @@ def main():
     from pyvc.run import all_contracts
     import BTrees._base as B
     con = all_contracts()[job["function"]]
+    # Only receivers this replayer can rebuild faithfully from a counter-model are replayed: leaves
+    # (Bucket/Set), Length, plain functions.  For interior nodes (views "f#struct": children are
+    # abstracted by summaries in the model), lemma programs, cursors and state tuples there is no
+    # faithful reconstruction: the violation is then reported without a failing input.
+    cls = con.cls if isinstance(con.cls, list) else [con.cls]
+    leafish = all(c in ("Bucket", "Set", "Length") for c in cls if c) and any(cls)
+    if "#" in job["function"] or job["function"].startswith("lemma:") or \
+            not (leafish or job["function"] == "compare") or \
+            job["function"].endswith(("_p_resolveConflict", "__getstate__", "__setstate__")):
+        print(json.dumps({"reproduced": False, "outcome": "no native replay for this kind of receiver (see rtc/replay_py.py)"}))
+        return
     jar = Jar()
     model = job["model"]
     env = {}
